@@ -146,6 +146,34 @@ def geometry_job(job):
                        float(np.linalg.norm(tau_c - want)) / max(1.0, float(np.linalg.norm(want))), 1e-8, case))
             ev.append(("query leaves both plate poses unchanged", reg,
                        float(np.abs(sp.getTopT().gTM() - T).max()) + float(np.abs(sp.getBottomT().gTM() - base).max()), 1e-9, case))
+            # K5: a Jacobian query at an explicitly passed pose X is the Jacobian of X and leaves the platform at T in every
+            # respect the statics interface reads (lengths, joint points): the answers at T are the same afterwards
+            relX = spzoo.workspace_pose(rng, h)
+            X = base @ relX
+            casex = dict(case, X=X.tolist(), F=F.tolist())
+            with quiet():
+                lens_T = np.asarray(sp.getLens(), dtype=float).reshape(6).copy()
+                JX = np.asarray(sp.inverseJacobian(top_plate_pos=tm(X.copy())), dtype=float)
+                lens_T2 = np.asarray(sp.getLens(), dtype=float).reshape(6)
+                sw2 = data(sp.sumActuatorWrenches(tau.copy()))
+                tau_c2, _w = sp.carryMassCalc(Wrench(F.reshape((6, 1)).copy()))
+                tau_c2 = data(tau_c2)
+                J_again = np.asarray(sp.inverseJacobian(), dtype=float)
+            ev.append(("K5 explicit-pose query leaves pose and leg lengths", reg,
+                       float(np.abs(sp.getTopT().gTM() - T).max()) + float(np.abs(sp.getBottomT().gTM() - base).max())
+                       + float(np.abs(lens_T2 - lens_T).max()), 1e-9, casex))
+            ev.append(("K5 after an explicit-pose query: summed leg wrench on the base = -F", reg,
+                       float(np.linalg.norm(sw2 + F)) / nF, 1e-8, casex))
+            ev.append(("K5 after an explicit-pose query: carryMassCalc unchanged", reg,
+                       float(np.linalg.norm(tau_c2 - want)) / max(1.0, float(np.linalg.norm(want))), 1e-8, casex))
+            ev.append(("K5 after an explicit-pose query: Jacobian at the current pose unchanged", reg,
+                       float(np.abs(J_again - J).max()) / scale, 1e-9, casex))
+            with quiet():
+                sp.IK(top_plate_pos=tm(X.copy()), bottom_plate_pos=tm(base.copy()), protect=True)
+                J_at_X = np.asarray(sp.inverseJacobian(), dtype=float)
+                sp.IK(top_plate_pos=tm(T.copy()), bottom_plate_pos=tm(base.copy()), protect=True)
+            ev.append(("K5 explicit-pose query = Jacobian of that pose", reg,
+                       float(np.abs(JX - J_at_X).max()) / max(1.0, float(np.abs(J_at_X).max())), 1e-9, casex))
     return ev
 
 
@@ -167,6 +195,10 @@ def run(ctx):
         exact_rows(L, r.json)
     for law in ("K1 leg rates = inverse Jacobian * twist", "K3 J^-T f = F", "K3 summed leg wrench on the base = -F",
                 "K3 body interface gives the same leg forces", "K4 carryMassCalc = statics of wrench + top-plate and shaft weights"):
+        for reg in ("identity-base|fresh", "placed|fresh", "placed|moved", "placed|respun"):
+            L.require(law, reg, 3)
+    for law in ("K5 after an explicit-pose query: summed leg wrench on the base = -F", "K5 after an explicit-pose query: carryMassCalc unchanged",
+                "K5 explicit-pose query = Jacobian of that pose"):
         for reg in ("identity-base|fresh", "placed|fresh", "placed|moved", "placed|respun"):
             L.require(law, reg, 3)
     with ctx.timed("lawtrace"):
